@@ -467,6 +467,10 @@ func runC05(rc *RC) {
 				for i, n := 0, ch.Range("workload", 1, 6); i < n; i++ {
 					simrt.Yield("before-second-close")
 				}
+				if ch.Chance("workload", 1, 2) {
+					// so is flushing it: the output belongs to somebody else now
+					w.Flush()
+				}
 				w.Close()
 			}
 		case "Encode":
